@@ -63,6 +63,8 @@ pub trait GenObj {
     fn processed_len(&self) -> Obs<Option<u32>>;
     fn fin(&self, o: u8) -> Obs<HRes>;
     fn fin_default(&self) -> Obs<HRes>;
+    /// finalize with an options OBJECT (however it was built)
+    fn fin_with(&self, opt: &GeneratorOptions) -> Obs<HRes>;
     fn export(&self) -> VerifGeneratorState;
     fn import(&mut self, st: &VerifGeneratorState);
     fn clone_box(&self) -> Obs<Box<dyn GenObj>>;
@@ -197,6 +199,9 @@ macro_rules! impl_variant {
             }
             fn fin_default(&self) -> Obs<HRes> {
                 obs(|| self.0.finalize()).map($H::res)
+            }
+            fn fin_with(&self, opt: &GeneratorOptions) -> Obs<HRes> {
+                obs(|| self.0.finalize_with_options(opt)).map($H::res)
             }
             fn export(&self) -> VerifGeneratorState {
                 self.0.verif_export()
